@@ -183,6 +183,25 @@ impl ReedSolomonDecoder {
 }
 
 // ======================================================================
+// verification builds
+
+#[cfg(feature = "verif-hooks")]
+impl ReedSolomonEncoder {
+    /// The wrapped default-rate encoder (read-only).
+    pub fn verif_inner(&self) -> &DefaultRateEncoder<DefaultEngine> {
+        &self.0
+    }
+}
+
+#[cfg(feature = "verif-hooks")]
+impl ReedSolomonDecoder {
+    /// The wrapped default-rate decoder (read-only).
+    pub fn verif_inner(&self) -> &DefaultRateDecoder<DefaultEngine> {
+        &self.0
+    }
+}
+
+// ======================================================================
 // TESTS
 
 #[cfg(test)]
